@@ -757,12 +757,17 @@ class ApplicationStartJobs(ApplicationJobs):
                               f' with load_request_map={load_request_map}')
             # for all commands, select an identifier from the chosen node
             for command in commands:
-                process_load = command.process.rules.expected_load
+                process = command.process
+                process_load = process.rules.expected_load
+                # the Supvisors instances of the node may not all know the process
+                process_identifiers = [identifier for identifier in self.identifiers
+                                       if identifier in process.info_map and not process.disabled_on(identifier)]
                 identifier = get_supvisors_instance(self.supvisors, self.starting_strategy,
-                                                    self.identifiers, process_load, load_request_map)
-                self.logger.debug(f'ApplicationStartJobs.distribute_to_single_node: {command.process.namespec}'
+                                                    process_identifiers, process_load, load_request_map)
+                self.logger.debug(f'ApplicationStartJobs.distribute_to_single_node: {process.namespec}'
                                   f' is planned to start on Supvisors={identifier}')
-                command.update_identifier(identifier)
+                if identifier:
+                    command.update_identifier(identifier)
         else:
             self.logger.debug('ApplicationStartJobs.distribute_to_single_node: no Supvisors instance found to plan'
                               f' the starting of {self.application_name} with load={application_load}')
